@@ -55,7 +55,9 @@ CtxUser == {TCls("zutil.A"), TCls("zutil.zutil"), TCls("zutil.Outer.Inner"), TCl
             \* a package next to its own submodule; a module whose name ends with `typing`; `NoneType` inside a class name
             TCls("zpkg.PkgTop"), TCls("zmytyping.Foo"), TCls("zmytyping.MyNoneTypeBox"),
             \* a private top-level module (only `_io` has a public twin that re-exports its classes)
-            TCls("_zledger.Account")}
+            TCls("_zledger.Account"),
+            \* application classes named like typing constructs
+            TCls("mtfx.lookalikes.List"), TCls("mtfx.lookalikes.Union")}
 CtxAtoms == CtxUser \cup {TCls("int"), TNone}
 
 TD1(fs) == TTD(fs)
